@@ -354,6 +354,162 @@ func extractC09() *lean {
 	okThumb := fromKey && !viaAssign
 	l.def("thumbprintCalculatedFromKeyMaterial", "Bool", map[bool]string{true: "true", false: "false"}[okThumb], okThumb)
 
+	// ---- wiring and call sites
+	// Network.Configure: what the DAG signature verifier's key resolver is built from
+	_, netw := parseFile("network/network.go")
+	verifierWiring := ""
+	ast.Inspect(netw, func(n ast.Node) bool {
+		if as, ok := n.(*ast.AssignStmt); ok && len(as.Lhs) == 1 && len(as.Rhs) == 1 {
+			if strings.Contains(c09Src(as.Rhs[0]), "SourceTXKeyResolver") {
+				verifierWiring = c09Src(as.Lhs[0]) + " := " + c09Src(as.Rhs[0])
+			}
+		}
+		if c, ok := n.(*ast.CallExpr); ok && exprString(c.Fun) == "dag.NewTransactionSignatureVerifier" && len(c.Args) == 1 {
+			verifierWiring += " ; NewTransactionSignatureVerifier(" + c09Src(c.Args[0]) + ")"
+		}
+		return true
+	})
+	l.def("verifierWiring", "String", strconv.Quote(verifierWiring), verifierWiring)
+
+	// NewAmbassador: the resolvers the ambassador is given
+	var ambWiring []string
+	if fd := funcDecl(amb, "NewAmbassador"); fd != nil {
+		ast.Inspect(fd, func(n ast.Node) bool {
+			switch x := n.(type) {
+			case *ast.AssignStmt:
+				if len(x.Lhs) == 1 && len(x.Rhs) == 1 {
+					ambWiring = append(ambWiring, c09Src(x.Lhs[0])+" := "+c09Src(x.Rhs[0]))
+				}
+			case *ast.KeyValueExpr:
+				k := exprString(x.Key)
+				if k == "keyResolver" || k == "didResolver" || k == "didStore" {
+					ambWiring = append(ambWiring, k+": "+c09Src(x.Value))
+				}
+			}
+			return true
+		})
+	}
+	l.def("ambassadorWiring", "List String", leanStrList(ambWiring), ambWiring)
+
+	// who calls callback / the two handlers, and every Add on a DID store in the package (non-test files)
+	var callers, adds []string
+	for _, file := range []string{"ambassador.go", "manager.go", "resolver.go", "validators.go"} {
+		_, f := parseFile("vdr/didnuts/" + file)
+		for _, d := range f.Decls {
+			fd, ok := d.(*ast.FuncDecl)
+			if !ok || fd.Body == nil {
+				continue
+			}
+			ast.Inspect(fd, func(n ast.Node) bool {
+				if c, ok := n.(*ast.CallExpr); ok {
+					fn := exprString(c.Fun)
+					switch {
+					case strings.HasSuffix(fn, ".callback"), strings.HasSuffix(fn, ".handleCreateDIDDocument"), strings.HasSuffix(fn, ".handleUpdateDIDDocument"):
+						callers = append(callers, fd.Name.Name+"->"+fn[strings.LastIndex(fn, ".")+1:])
+					case strings.HasSuffix(fn, "tore.Add"):
+						adds = append(adds, file+":"+fd.Name.Name+":"+fn)
+					}
+				}
+				return true
+			})
+		}
+	}
+	l.def("handlerCallers", "List String", leanStrList(callers), callers)
+	l.def("didStoreAddSites", "List String", leanStrList(adds), adds)
+
+	// the subscription filter in Start()
+	filter := ""
+	if fd := c09Method(amb, "ambassador", "Start"); fd != nil {
+		ast.Inspect(fd, func(n ast.Node) bool {
+			if fl, ok := n.(*ast.FuncLit); ok && len(fl.Body.List) == 1 {
+				if r, ok := fl.Body.List[0].(*ast.ReturnStmt); ok && len(r.Results) == 1 && strings.Contains(c09Src(r.Results[0]), "PayloadType") {
+					filter = c09Src(r.Results[0])
+				}
+			}
+			return true
+		})
+	}
+	l.def("subscriptionFilter", "String", strconv.Quote(filter), filter)
+
+	// comparison / helper expressions
+	findCmp := ""
+	if fd := c09Method(amb, "ambassador", "findKeyByThumbprint"); fd != nil {
+		ast.Inspect(fd, func(n ast.Node) bool {
+			if is, ok := n.(*ast.IfStmt); ok && strings.Contains(c09Src(is.Cond), "documentThumbprint") {
+				findCmp = c09Src(is.Cond)
+				for _, st := range is.Body.List {
+					if br, ok := st.(*ast.BranchStmt); ok {
+						findCmp += " => " + br.Tok.String()
+					}
+				}
+			}
+			return true
+		})
+	}
+	l.def("findKeyComparison", "String", strconv.Quote(findCmp), findCmp)
+	pfxCmp := ""
+	if fd := funcDecl(val, "verifyDocumentEntryID"); fd != nil {
+		ast.Inspect(fd, func(n ast.Node) bool {
+			if is, ok := n.(*ast.IfStmt); ok && strings.Contains(c09Src(is.Cond), "owner") {
+				pfxCmp = c09Src(is.Cond)
+			}
+			return true
+		})
+	}
+	l.def("entryIdPrefixComparison", "String", strconv.Quote(pfxCmp), pfxCmp)
+	alg := ""
+	for _, d := range amb.Decls {
+		if gd, ok := d.(*ast.GenDecl); ok && gd.Tok == token.VAR {
+			for _, sp := range gd.Specs {
+				vs := sp.(*ast.ValueSpec)
+				for i, n := range vs.Names {
+					if n.Name == "thumbprintAlg" && i < len(vs.Values) {
+						alg = c09Src(vs.Values[i])
+					}
+				}
+			}
+		}
+	}
+	l.def("thumbprintAlg", "String", strconv.Quote(alg), alg)
+	_, rdid := parseFile("vdr/resolver/did.go")
+	isDeact := ""
+	if fd := funcDecl(rdid, "IsDeactivated"); fd != nil && len(fd.Body.List) == 1 {
+		if r, ok := fd.Body.List[0].(*ast.ReturnStmt); ok && len(r.Results) == 1 {
+			isDeact = c09Src(r.Results[0])
+		}
+	}
+	l.def("isDeactivatedBody", "String", strconv.Quote(isDeact), isDeact)
+	_, jwx := parseFile("crypto/jwx.go")
+	var nutsThumb []string
+	if fd := funcDecl(jwx, "Thumbprint"); fd != nil {
+		ast.Inspect(fd, func(n ast.Node) bool {
+			if c, ok := n.(*ast.CallExpr); ok {
+				fn := exprString(c.Fun)
+				if fn == "key.Thumbprint" || strings.HasPrefix(fn, "base58.") {
+					nutsThumb = append(nutsThumb, c09Src(c))
+				}
+			}
+			return true
+		})
+	}
+	l.def("nutsThumbprintSteps", "List String", leanStrList(nutsThumb), nutsThumb)
+	// ManagedDocumentValidator (the node's own publishing path) starts with the network validator
+	var managed []string
+	if fd := funcDecl(val, "ManagedDocumentValidator"); fd != nil {
+		ast.Inspect(fd, func(n ast.Node) bool {
+			if cl, ok := n.(*ast.CompositeLit); ok {
+				if at, ok := cl.Type.(*ast.ArrayType); ok && exprString(at.Elt) == "did.Validator" {
+					for _, e := range cl.Elts {
+						managed = append(managed, c09Src(e))
+					}
+					return false
+				}
+			}
+			return true
+		})
+	}
+	l.def("managedValidators", "List String", leanStrList(managed), managed)
+
 	// ---- dag/keys.go: the only error the key resolver moves on from
 	_, keys := parseFile("network/dag/keys.go")
 	keyCont := ""
@@ -366,5 +522,15 @@ func extractC09() *lean {
 		})
 	}
 	l.def("keyResolverAbortCondition", "String", strconv.Quote(keyCont), keyCont)
+	keyLookup := ""
+	if fd := funcDecl(keys, "resolvePublicKey"); fd != nil {
+		ast.Inspect(fd, func(n ast.Node) bool {
+			if c, ok := n.(*ast.CallExpr); ok && strings.HasSuffix(exprString(c.Fun), "FindByID") {
+				keyLookup = c09Src(c)
+			}
+			return true
+		})
+	}
+	l.def("keyLookup", "String", strconv.Quote(keyLookup), keyLookup)
 	return l
 }
